@@ -188,10 +188,24 @@ func cmdRelayout(args []string) {
 }
 
 func outcomeOf(c N, dir string) string {
-	mainFile, _ := materialise(c, dir)
+	mainFile, src := materialise(c, dir)
+	c["src"] = src
 	parts := []string{}
+	rec := N{}
+	c["obsrec"] = rec
 	for _, target := range []string{"bash", "batch"} {
 		script, err, panicked := transpileSafe(mainFile, target)
+		rec[target] = "A"
+		if err != nil {
+			rec[target] = "R"
+			rec[target+"Err"] = firstLine(err.Error())
+			if script != "" {
+				rec[target] = "RS" // an error AND a script
+			}
+		}
+		if panicked {
+			rec[target] = "P"
+		}
 		switch {
 		case panicked:
 			parts = append(parts, "P")
